@@ -573,6 +573,17 @@ def run(repo, chk):
             chk.ob("R18.2", f"{fi.qual}:operand-kinds", True, fi.where, f"every attribute used on an operand exists on all kinds possible there ({kf.checked} uses)")
     from .shared import call_extension_obligations
     call_extension_obligations(repo, chk, "R18.2")
+    # grammar side of the same flow: `make_equals` stores value_evaluate(<right operand>) in Element.value unchecked, and _resolve calls .eval on it.  Only VSymbol / VCall
+    # have .eval; the operators whose value action yields something else (`=` -> VKeyword, `,` -> list) must therefore never end up INSIDE the right operand of `=` / `~`:
+    # after `=` / `~`, each of them has to close the handle (negative order), so `x=1=2` groups as `(x=1)=2` and `f(x=1, y)` as `f((x=1), y)`.
+    from .c15 import extract_tower, sign as _sign
+    table_, _lex = extract_tower(repo)
+    for l_ in ("=", "~"):
+        for r_ in ("=", "~", ","):
+            got_ = _sign(table_, l_, r_)
+            chk.ob("R18.2", f"tower:{l_!r}-then-{r_!r}:closes", got_ == "-", "ptera/selector.py (parser = ...)",
+                   f"`{r_}` after `{l_}` closes the value (order {got_}): the right operand of `{l_}` is a symbol or a call, never a keyword / sequence "
+                   "(which have no .eval: AttributeError out of select() instead of a syntax error)")
     # the kind universe itself: what the actions return
     bad_ret = []
     for fi in actions:
@@ -675,7 +686,7 @@ def run(repo, chk):
     from ..cfg import CFG
     gpp = CFG(pp.node, lambda s_: isinstance(s_, (ast.Raise, ast.Assert)))
     heads = [n for n in gpp.nodes if n.kind == "test" and isinstance(n.stmt, ast.While)]
-    progress = [n for n in gpp.nodes if n.kind == "stmt" and n.stmt is not None and any(isinstance(c, ast.Call) and norm(c.func) in (f"{pp.node.args.args[1].arg}.pop", "stack.pop") for c in ast.walk(n.stmt))
+    progress = [n for n in gpp.nodes if n.kind == "stmt" and n.stmt is not None and any(isinstance(c, ast.Call) and (norm(c.func) == "stack.pop" or norm(c.func).endswith(".pop") and isinstance(getattr(c, "_parent", None), ast.IfExp) and norm(c._parent.test) == norm(c.func)[:-4]) for c in ast.walk(n.stmt))
                 and any(n.stmt is x for h in heads for x in ast.walk(h.stmt))]
     # no way around the loop without taking a token or popping the handle stack; and the loop can be left by a return
     ok = len(heads) == 1 and bool(progress) and not any(gpp.path_exists(m, heads[0], avoid=progress, labels=("n", "t", "f")) for m, lab in heads[0].succ if lab == "t") \
